@@ -303,6 +303,35 @@ Definition foldfilter_cli (wstr : list Z) (keep : bool) (delims : list Z) (g : l
                                fold_feeder_strip_cr fold_collector_strip_cr input)
   end.
 
+(* -d <str>: the code points of the argument in order (parse_delimiters: DecodeUTF8Range);
+   None = the argument is not valid UTF-8 *)
+Fixpoint parse_delims_fuel (fuel : nat) (bs : list Z) : option (list Z) :=
+  match bs with
+  | [] => Some []
+  | _ =>
+    match fuel with
+    | O => None
+    | S f =>
+      match decode_utf8 bs with
+      | None => None
+      | Some (c, n) =>
+        match parse_delims_fuel f (skipn (Z.to_nat n) bs) with
+        | Some r => Some (c :: r)
+        | None => None
+        end
+      end
+    end
+  end.
+Definition parse_delims (s : list Z) : option (list Z) := parse_delims_fuel (length s) s.
+
+(* foldfilter -w <wstr> [-s] -d <dstr> child *)
+Definition foldfilter_cli2 (wstr : list Z) (keep : bool) (dstr : list Z) (g : list Z -> list Z) (input : list Z) : cres :=
+  match parse_width wstr, parse_delims dstr with
+  | Some w, Some ds => CRun (foldfilter {| w_width := w; w_keep := keep; w_delims := ds |} g
+                                        fold_feeder_strip_cr fold_collector_strip_cr input)
+  | _, _ => CUsage
+  end.
+
 (* the tool as built: the two strip_cr settings are read from the source *)
 Definition foldfilter_tool (o : wopts) (g : list Z -> list Z) (input : list Z) : tres :=
   foldfilter o g fold_feeder_strip_cr fold_collector_strip_cr input.
